@@ -86,15 +86,19 @@ def expected(func, vals):
     raise AssertionError(func)
 
 
-def ok(exp, got):
+def ok(exp, got, scale=0.0):
+    """`scale`: sum of the magnitudes of the terms that were added.  The
+    reference adds exactly (fsum), a double accumulator is off by up to
+    n * 2**-53 * scale whatever the order - visible when large terms cancel
+    (0.1 - 4e9 + 4e9)"""
     if isinstance(exp, tuple) and exp[0] == 'either':
-        return any(ok(e, got) for e in exp[1:])
+        return any(ok(e, got, scale) for e in exp[1:])
     if klass(got).startswith('other'):
         return False
     if klass(exp) == 'number' and klass(got) == 'number' and \
             not isinstance(got, bool):
         return math.isclose(float(got), float(exp), rel_tol=1e-9,
-                            abs_tol=1e-9)
+                            abs_tol=max(1e-9, 1e-13 * scale))
     return same(exp, got)
 
 
@@ -128,6 +132,7 @@ def check_rect(ctx, h, w, vals, seed):
                      'has-error' if err else 'no-error',
                      f'size:{min(h * w, 9)}'), sample=case)
     tag = ('err' if err else 'clean') + ':' + '+'.join(sorted(cls - {'number'}))
+    scale = math.fsum(abs(float(n)) for n in nums)
 
     def run(name, formula, cells, exp, kind):
         try:
@@ -136,7 +141,7 @@ def check_rect(ctx, h, w, vals, seed):
             rec.fail(f'{name}:raises:{exc_key(exc)}:{kind}:{tag}', case,
                      f'{formula} over {vals} raised {exc!r}'[:400])
             return None
-        if not ok(exp, got):
+        if not ok(exp, got, scale):
             rec.fail(f'{name}:{kind}:{tag}', case,
                      f'{formula} over {h}x{w} {vals} = {got!r}, expected '
                      f'{exp!r}')
@@ -223,18 +228,21 @@ def check_sumproduct(ctx, h, w, vals, vals2, seed):
     def num(v):
         return v if klass(v) == 'number' else 0
     exp = err or math.fsum(num(a) * num(b) for a, b in zip(vals, vals2))
+    scale = math.fsum(abs(float(num(a) * num(b)))
+                      for a, b in zip(vals, vals2))
+    scale1 = math.fsum(abs(float(num(a))) for a in vals)
     tag = 'err' if err else 'clean'
     if h * w == 1 and (vals[0] is None or vals2[0] is None):
         tag = '1x1-blank'
     try:
         got = env.eval(f'=SUMPRODUCT({r1},{r2})', cells)
-        if not ok(exp, got):
+        if not ok(exp, got, scale):
             rec.fail(f'SUMPRODUCT:value:{tag}', case,
                      f'SUMPRODUCT over {vals} x {vals2} = {got!r}, expected '
                      f'{exp!r}')
         got1 = env.eval(f'=SUMPRODUCT({r1})', cells)
         e1 = ref(vals)[0] or math.fsum(num(a) for a in vals)
-        if not ok(e1, got1):
+        if not ok(e1, got1, scale1):
             rec.fail(f'SUMPRODUCT:single:{tag}', case,
                      f'SUMPRODUCT({vals}) = {got1!r}, expected {e1!r}')
         if h * w > 1 and not err:
